@@ -25,7 +25,11 @@ type ParserData struct {
 	// 以便 break/continue 跳出循环体内的 if 或模板块时补上对应的 pop
 	openBlocks     []CodeType
 	loopOpenBlocks []int // 每层循环开始时 openBlocks 的长度
-	codeStack      []struct {
+
+	// 主代码段每条指令写入时解析器所处的文本位置，用于清除回溯后遗留的指令
+	getOffset func() int
+	codePos   []int
+	codeStack []struct {
 		code    []ByteCode
 		index   int
 		textPos int
@@ -87,7 +91,31 @@ func (e *ParserData) WriteCode(T CodeType, value any) {
 	c := &e.code[e.codeIndex]
 	c.T = T
 	c.Value = value
+	if e.getOffset != nil && len(e.codeStack) == 0 {
+		for len(e.codePos) <= e.codeIndex {
+			e.codePos = append(e.codePos, 0)
+		}
+		e.codePos[e.codeIndex] = e.getOffset()
+	}
 	e.codeIndex += 1
+}
+
+// dropStaleCode 将"最终接受位置之后"写入的指令替换为 nop。
+// 语法动作在解析过程中即时写入字节码，而回溯只恢复文本位置；被放弃的分支(例如未闭合的字符串、
+// 下标、字典、|| 的右侧、return 后不完整的表达式)留下的指令都是在解析器越过最终接受位置之后写入的，
+// 而被接受的解析路径上的动作不可能在该位置之后执行，因此这些指令一定不属于已匹配文本。
+// 用 nop 原位替换而不是删除，以保持已回填的跳转偏移不变。
+func (e *ParserData) dropStaleCode() {
+	n := e.codeIndex
+	if n < 2 || e.code[n-1].T != typeHalt || len(e.codePos) < n {
+		return
+	}
+	final := e.codePos[n-1]
+	for i := 0; i < n-1; i++ {
+		if e.codePos[i] > final {
+			e.code[i] = ByteCode{T: typeNop}
+		}
+	}
 }
 
 func (p *ParserData) AddDiceDetail(begin IntType, end IntType) {
